@@ -13,7 +13,9 @@ CLAIMED = {
               "interfaces, possibleTypes, enum values, input fields, parsed default values, isOneOf, specifiedByURL, isRepeatable, roots, description) - and "
               "Project(full, opts) - the full-options result minus exactly the attributes and deprecated input values each switched-off option omits. For "
               "seeded schemas (SDL and programmatic routes) the standard introspection query is validated and executed under all 2^7 option combinations; "
-              "TLC checks every result against Project of the full result and the user-defined part of the full result against IntroGraph(S). Python checks "
+              "TLC checks every result against Project of the full result, the user-defined part of the full result against IntroGraph(S), and SelfContained(full): "
+              "every type the result refers to is one it lists (a family of small schemas refers to each built-in scalar from exactly one place, for every kind "
+              "of place, incl. interfaces nothing implements). Python checks "
               "__type(name:) against the type list and that build_client_schema(full) prints identically, shows no changes and introspects to the same result."),
         design_ref="DESIGN.md 5/C18",
         note="Built-in scalars, introspection types and specified directives are not compared with IntroGraph; defaultValue strings are parsed back before comparison; ad-hoc introspection selections are not generated yet.",
@@ -133,7 +135,9 @@ CLAIMED = {
               "and every value over a 14-symbol quoted alphabet up to length 3/4 - the parsed value must be the specification's value, the printed literal must "
               "denote the original value, is_printable_as_block_string(v) must imply Representable(v). Full-grammar documents from a grammar-directed generator "
               "(incl. experimental syntaxes): parsed AST = the generator's expected tree, print->parse identity, print fixed point, the same for trees built from "
-              "node classes, and TLC checks that the string tokens of each printed document carry exactly the tree's string values in order."),
+              "node classes, and TLC checks that the string tokens of each printed document carry exactly the tree's string values in order. Every ordered pair "
+              "(thorough: also triples) of 53 definition forms (each kind of definition with and without its optional parts) is printed as one document: adjacent "
+              "definitions must not run into each other (F34)."),
         design_ref="DESIGN.md 5/C08",
         note="Round-trip and fixed-point laws are metamorphic (evaluated on the real parser/printer); the TLA+ lexer is the independent oracle for string values. A programmatic block node whose value no block string denotes is outside the statement.",
         technique="bounded-exhaustive enumeration of string values + TLC evaluation of printed literals/documents against Lexical.tla",
